@@ -92,16 +92,18 @@ SPEC = dict(
          "texts; thorough: the full product 2x256x9x11 = 50688); (b) random part — lengths 0..130 (70%), block-edge "
          "lengths (20%), 131..600 (9%), 1000..3000 (1%), 0/1/2 invalid bytes (lower case, letter+-1, letter|0x80, "
          "control/punctuation, other upper case, multi-byte UTF-8 characters, uniform) at class or uniform positions; "
-         "3% of the cases give encode_into a destination one longer/shorter; (c) one table case per alphabet "
-         "(from_ascii over 256 bytes, as_ascii/as_char/as_index over symbols(), as_str, K, from_char over 392 chars); "
+         "3% of the cases give encode_into a destination 1/16/32 longer or 1/16/33 shorter; (c) one table case per alphabet "
+         "(from_ascii over 256 bytes, as_ascii/as_char/as_index over symbols(), as_str, K, from_char over 398 chars incl. U+017F, U+0131, U+212A, full-width and mathematical letters); "
          "(d) sub-slice cases (kind=win, one sixth of the run): texts of the lengths {0,1,2,15..18,30..34,46..50,63..66,"
          "79..81,95..97,111..113,127..130} (80%) or 0..199, 0/1/2 foreign bytes at position classes {0, 1..14, 15, 16..31, "
-         "31, 32..47, last 16, the 16 before, SSE2 tail, last, uniform}, 4% destination one longer/shorter; every pipeline's "
+         "31, 32..47, last 16, the 16 before, SSE2 tail, last, uniform}, 4% destination longer/shorter; every pipeline's "
          "encode_into(&text[B+so..][..len], &mut mem[B'+do..][..len+dl]) for every pair (so,do) of a grid (0..31 x 0..31: "
-         "30%, one so x 0..31: 30%, 0..31 x one do: 20%, 0..15 x 0..15: 20%) of misalignments from 32-byte aligned bases, "
+         "30%, one so in 0..63 x 0..31: 30%, 0..31 x one do in 0..63: 20%, 0..15 x 0..15: 20%) of misalignments from 64-byte aligned bases, "
          "source surrounded by foreign bytes, destination by guard symbols, and encode_raw(&text[B+so..][..len]); per "
          "pipeline the set of distinct (outcome, first modified guard element) over the grid is observed: each must pass "
-         "check_C05 (PROPFAIL), equal the extracted model run at the witness offsets and leave all guards intact (DIFF). "
+         "check_C05 (PROPFAIL), equal the extracted model run at the witness offsets and leave all guards intact (DIFF); "
+         "(e) 8 (thorough: 64) long texts of length {4095,4096,4097,8192,8193,65535,65536,65537} with 0/1 foreign byte (last, "
+         "start of the AVX2 tail, uniform): property checker only, the quadratic list model is not run above 3000 bytes. "
          "Each text goes through generic/sse2/avx2/dispatch[forced Generic,Sse2,Avx2] x encode/encode_raw/encode_into, "
          "EncodedSequence::encode and from_str with each forced arm and the native one, and to_string(); every outcome "
          "Ok(indices)|Err(code point)|panic is checked by the extracted check_C05 (= extracted encode_spec; PROPFAIL) and "
@@ -114,13 +116,20 @@ SPEC = dict(
         "translator translate/encode_abc.py (regex/brace-matching reader of abc.rs match arms, enum discriminants, "
         "as_str/symbols()/K, of the Dispatch Encode arm table, and of the loop bound / initial register of "
         "encode_into_avx2/sse2; it also checks textually that as_index is `*self as usize`, that the symbol impls do not "
-        "override as_char/from_char, and the shape of the SIMD kernels' letter loop and scalar tail) — its reading is "
-        "cross-checked on every run by the table case of the correspondence check",
+        "override as_char/from_char, the shape of the SIMD kernels' letter loop and scalar tail, the kernels' addressing "
+        "discipline (only `let mut i = 0; i += STRIDE`, src_ptr/dst_ptr initialised from the slices and advanced by STRIDE, "
+        "one unaligned load from src_ptr and one unaligned store of `encoded` to dst_ptr, no aligned load/store, "
+        "align_offset/align_to, pointer->integer cast, assert_eq!(seq.len(), dst.len()) first), and that the normalised "
+        "bodies of EncodedSequence::{new, encode}, FromStr::from_str, Display::fmt and of the trait defaults "
+        "Encode::{encode_raw, encode, encode_into} are the texts the Gallina definitions were transcribed from) — its "
+        "reading of the tables is cross-checked on every run by the table case of the correspondence check",
         "extraction: ExtrOcamlBasic only (nat, N, positive, list, option, Byte.byte kept as extracted inductives); OCaml 4.13.1",
         "hand-written OCaml driver ocaml/encode/driver.ml (parsing, printing, comparison)",
         "Rust harness harness/src/bin/encode.rs (calls the public encoder entry points, catch_unwind, hex printing)",
         "modelled, not verified: lane-wise semantics of _mm{,256}_{set1,cmpeq}_epi8, _mm256_blendv_epi8, "
         "_mm{,256}_{andnot,or,and}_si, _mm256_testz_si256, unaligned load/store as list operations on u8 lanes; "
+        "sub-slicing `&v[a..a+n]` as firstn/skipn of a list and the write-back of a `&mut` sub-slice as a splice "
+        "(addresses are not modelled: loads/stores of the kernels are the unaligned ones, checked textually); "
         "Vec::with_capacity+set_len as a buffer with arbitrary contents; `u8 as char` = code point of the byte; "
         "Rust `match` = first matching arm; String/Display as the UTF-8 bytes of the written chars",
     ],
